@@ -123,6 +123,54 @@ def check(an, rep, tier):
                     'core (maximum of the absolute values); anything else '
                     'under-scales cores whose dominant entry is negative',
                     line=s.node.lineno, file=s.mod.path)
+    # --- U-exp-paths: every return path of the stabilised norm hands back
+    # the exponent that mul_scalar produced.  A path that returns a literal
+    # exponent next to a sibling path that returns one derived from the
+    # ledger drops the scale (a vanishing mantissa keeps its exponent: the
+    # callers divide / compare by 2**p).  Three-valued per return: derived
+    # from the ledger variable = ok; a literal = violation when a sibling
+    # path is ok; otherwise unknown.  No floor.
+    import ast as _ast
+    from .. import roles as _rolesU
+    _fnorm = an.prog.func('act_one.norm')
+    if _fnorm is not None:
+        _pn = set()
+        for _as in _ast.walk(_fnorm.node):
+            if isinstance(_as, _ast.Assign) and \
+                    isinstance(_as.targets[0], _ast.Tuple) and \
+                    len(_as.targets[0].elts) == 2 and \
+                    isinstance(_as.value, _ast.Call) and \
+                    (an.prog.dotted(_as.value.func) or '').endswith(
+                        'mul_scalar') and \
+                    isinstance(_as.targets[0].elts[1], _ast.Name):
+                _pn.add(_as.targets[0].elts[1].id)
+        _rets = [r for r in _ast.walk(_fnorm.node)
+                 if isinstance(r, _ast.Return) and
+                 isinstance(r.value, _ast.Tuple) and len(r.value.elts) == 2]
+        _cls = []
+        for _r in _rets:
+            _e1 = _r.value.elts[1]
+            _names = {n.id for n in _ast.walk(_e1)
+                      if isinstance(n, _ast.Name)}
+            _namesi = {n.id for n in _ast.walk(
+                _rolesU.inline(_fnorm.node, _e1)) if isinstance(n, _ast.Name)}
+            if _pn & (_names | _namesi):
+                _cls.append('ok')
+            elif isinstance(_e1, _ast.Constant):
+                _cls.append('lit')
+            else:
+                _cls.append('unknown')
+        if _pn:
+            for _r, _c in zip(_rets, _cls):
+                _st3 = 'ok' if _c == 'ok' else (
+                    'violation' if _c == 'lit' and 'ok' in _cls
+                    else 'unknown')
+                rep.add('U-exp-paths', 'act_one.norm', 'return path hands '
+                        'back the exponent produced by mul_scalar', _st3,
+                        '' if _st3 == 'ok' else 'exponent "%s" on this path '
+                        'is not derived from the ledger'
+                        % _ast.unparse(_r.value.elts[1]),
+                        line=_r.lineno, file=_fnorm.module.path)
     rep.floor('P-maxmod', 1, 'scaling reference')
     L.check_saturation(prog, rep)
     rep.floor('P-stab-every', 7, 'unconditional per-step re-scaling')
